@@ -9,13 +9,6 @@ Open Scope Z_scope.
 
 Record case := mkCase { c_id : Z; c_len : Z; c_win : Z; c_ops : list op; c_obs : list obs }.
 
-Fixpoint list_eqb {A} (f : A -> A -> bool) (a b : list A) : bool :=
-  match a, b with
-  | [], [] => true
-  | x :: a', y :: b' => f x y && list_eqb f a' b'
-  | _, _ => false
-  end.
-
 Definition optz_eqb (a b : option Z) : bool :=
   match a, b with Some x, Some y => x =? y | None, None => true | _, _ => false end.
 Definition slot_eqb (a b : slot) : bool :=
@@ -47,7 +40,10 @@ Definition obs_eqb_nodump (a b : obs) : bool :=
 
 Definition agree (c : case) : bool :=
   list_eqb obs_eqb (run (new_state (c_len c) (c_win c)) (c_ops c)) (c_obs c)
-  && list_eqb obs_eqb_nodump (r_run (r_new (c_len c) (c_win c)) (c_ops c)) (c_obs c).
+  && list_eqb obs_eqb_nodump (r_run (r_new (c_len c) (c_win c)) (c_ops c)) (c_obs c)
+  (* and, state by state, the pointer-level model is well-formed and abstracts to the ring-level
+     model (the simulation that props/C21.v leaves unproved) *)
+  && sim_run (new_state (c_len c) (c_win c)) (r_new (c_len c) (c_win c)) (c_ops c).
 
 (* --- the property itself, evaluated on the implementation's own output --- *)
 Fixpoint sorted_ts (l : list exemplar) : bool :=
@@ -76,7 +72,7 @@ Fixpoint holds_run (s : spec) (ops : list op) (obs_ : list obs) : bool :=
   match ops, obs_ with
   | [], [] => true
   | o :: t, b :: bt =>
-      let '(s', want) := sp_step s o in
+      let '(s', want) := sp_step WIdeal s o in
       obs_eqb_nodump want b && direct_ok s o b && holds_run s' t bt
   | _, _ => false           (* the implementation panicked / hung: history cut short *)
   end.
